@@ -279,8 +279,31 @@ class Gen:
         for _ in range(n_first):
             ops.append(["add", self.rnd.random() < 0.25, self.kwargs(3, lambda: self.rnd.choice(CONTENTS), fresh=0.8)])
         while len(ops) < self.n + 1:
-            ops.append(self.op())
+            if self.rnd.random() < 0.07:
+                ops += self.readd_below_deleted()
+            else:
+                ops.append(self.op())
         return ops
+
+    def readd_below_deleted(self):
+        """a classic interaction, as consecutive operations: write below a nested parent, delete a strict ancestor of that
+        parent (the whole subtree goes), then write below the same parent path again (all ancestors must be recreated, empty)
+        and look at the ancestors"""
+        rnd = self.rnd
+        nested = [k for k in self.live if len(re.split(r"(?<!\\)/", k)) >= 3 and k not in FORBIDDEN_KEYS]
+        if nested and rnd.random() < 0.6:
+            parts = re.split(r"(?<!\\)/", rnd.choice(nested))
+        else:
+            parts = [self.name() or "a" for _ in range(rnd.choice([3, 3, 4]))]
+        parent = "/".join(parts[:-1])
+        anc = "/".join(parts[:rnd.randint(1, len(parts) - 2)])
+        first, second = parent + "/" + (self.name() or "n"), parent + "/" + (self.name() or "m")
+        self.live += [first, second]
+        out = [["add", rnd.random() < 0.3, [[first, rnd.choice(CONTENTS)]]], ["delete", anc]]
+        out.append(rnd.choice([["add", False, [[second, rnd.choice(CONTENTS)]]], ["add", True, [[first, "again"]]],
+                               ["plot", None, None, False, [[second, "p.png"]]], ["metrics", second, None, [["acc", 0.5]]]]))
+        out.append(rnd.choice([["select", anc], ["select", parent], ["chain", [anc, "/".join(parts[len(anc.split("/")):-1]) or parts[-2]]]]))
+        return out
 
 
 def sequences(seed, n, weights, maxlen, init_weights=None):
